@@ -181,10 +181,10 @@ Fail(st, kind) == [ok |-> FALSE, st |-> st, kind |-> kind]
 Insert(st, root, callset, locals, id) ==
   IF id # <<>> /\ HasId(st, id) THEN Fail(st, "DuplicateProcId")
   ELSE IF root \in DOMAIN st.procs
-    THEN IF st.procs[root].locals # locals THEN Fail(st, "ConflictingNumLocals")
-         \* equal code, possibly different static references: the cached procedure covers both callsets
-         ELSE [ok |-> TRUE, st |-> [st EXCEPT !.procs[root].callset = @ \cup callset,
-                                              !.ids = IF id = <<>> THEN @ ELSE Put(@, id, root)]]
+    \* equal code (a wrapper `exec`-ing a procedure with locals has that procedure's root but no locals of its own),
+    \* possibly different static references: the cached procedure covers both callsets
+    THEN [ok |-> TRUE, st |-> [st EXCEPT !.procs[root].callset = @ \cup callset,
+                                         !.ids = IF id = <<>> THEN @ ELSE Put(@, id, root)]]
     ELSE [ok |-> TRUE, st |-> [st EXCEPT !.procs = Put(@, root, [callset |-> callset, locals |-> locals]),
                                           !.ids = IF id = <<>> THEN @ ELSE Put(@, id, root)]]
 
